@@ -43,6 +43,8 @@ impl ChainService {
         let _ = &clean_expired_orphan_timer;
         #[cfg(feature = "verif-hooks")]
         let clean_expired_orphan_timer = crate::verif_expire::receiver(self.orphan_broker.verif_pool_key());
+        #[cfg(feature = "verif-hooks")]
+        crate::verif_idle::register(self.orphan_broker.verif_pool_key(), self.orphan_broker.verif_pending());
 
         loop {
             select! {
